@@ -180,6 +180,79 @@ func shuffle(rng *rand.Rand, g *ref.Game, plies int) int {
 	return 0
 }
 
+// triangle appends cycles of six plies in which one piece of each side walks
+// a -> b -> c -> a, so that positions recur with a period that is not a
+// multiple of four. Returns the number of plies appended.
+func triangle(rng *rand.Rand, g *ref.Game, plies int) int {
+	find := func(p *ref.Pos) [][3]ref.Move {
+		var out [][3]ref.Move
+		for _, m1 := range p.Legal() {
+			if !reversible(p, m1) {
+				continue
+			}
+			// the other side passes by a null-like probe: evaluate the mover's
+			// geometry only; legality is re-checked when the cycle is assembled
+			q := *p
+			q.Sq[m1.To], q.Sq[m1.From] = q.Sq[m1.From], 0
+			for _, m2 := range pseudoFrom(&q, m1.To, p.White) {
+				if m2.To == m1.From || q.Sq[m2.To] != 0 {
+					continue
+				}
+				r := q
+				r.Sq[m2.To], r.Sq[m2.From] = r.Sq[m2.From], 0
+				for _, m3 := range pseudoFrom(&r, m2.To, p.White) {
+					if m3.To == m1.From && r.Sq[m3.To] == 0 {
+						out = append(out, [3]ref.Move{m1, m2, m3})
+					}
+				}
+			}
+		}
+		return out
+	}
+	cur := g.Cur()
+	as := find(cur)
+	rng.Shuffle(len(as), func(i, j int) { as[i], as[j] = as[j], as[i] })
+	for _, a := range as[:min(len(as), 12)] {
+		p1 := cur.Play(a[0])
+		bs := find(&p1)
+		rng.Shuffle(len(bs), func(i, j int) { bs[i], bs[j] = bs[j], bs[i] })
+		for _, b := range bs[:min(len(bs), 12)] {
+			cyc := []ref.Move{a[0], b[0], a[1], b[1], a[2], b[2]}
+			t := g.Clone()
+			ok := true
+			for _, m := range cyc {
+				if !t.Cur().IsLegal(m) || !reversible(t.Cur(), m) {
+					ok = false
+					break
+				}
+				t.Push(m)
+			}
+			if !ok || t.Cur().Key() != cur.Key() {
+				continue
+			}
+			for i := 0; i < plies; i++ {
+				g.Push(cyc[i%6])
+			}
+			return plies
+		}
+	}
+	return 0
+}
+
+// pseudoFrom lists the pseudo-legal moves of the piece on square from for the
+// given side (reference model geometry).
+func pseudoFrom(p *ref.Pos, from int, white bool) []ref.Move {
+	q := *p
+	q.White = white
+	var out []ref.Move
+	for _, m := range q.Pseudo() {
+		if m.From == from {
+			out = append(out, m)
+		}
+	}
+	return out
+}
+
 // randomEndgame places a few pieces at random until the reference model
 // accepts the position.
 func randomEndgame(rng *rand.Rand) Root {
@@ -213,7 +286,7 @@ func randomEndgame(rng *rand.Rand) Root {
 }
 
 // RootClass names of genRoot.
-var rootClasses = []string{"bench", "bench-play", "start-play", "curated", "curated-play", "shuffle2", "shuffle3", "shuffle-ep", "fifty", "fifty-long", "endgame", "captures", "promo-race"}
+var rootClasses = []string{"bench", "bench-play", "start-play", "curated", "curated-play", "shuffle2", "shuffle3", "shuffle-ep", "fifty", "fifty-long", "endgame", "captures", "promo-race", "triangle"}
 
 // genRoot draws a root of the given class ("" = weighted random class). Every
 // root is validated by the reference model; an invalid one is a harness bug.
@@ -231,7 +304,7 @@ func genRoot(rng *rand.Rand, class string) Root {
 
 func genRootUnchecked(rng *rand.Rand, class string) Root {
 	if class == "" {
-		weights := []int{12, 12, 12, 10, 8, 6, 6, 3, 5, 1, 12, 5, 4}
+		weights := []int{12, 12, 12, 10, 8, 6, 6, 3, 5, 1, 12, 5, 4, 5}
 		t := 0
 		for _, w := range weights {
 			t += w
@@ -322,6 +395,21 @@ func genRootUnchecked(rng *rand.Rand, class string) Root {
 		fen := fmt.Sprintf(base, clock)
 		g := ref.NewGame(ref.MustFEN(fen))
 		playout(rng, g, plies, "reversible")
+		return mk(fen, g, class)
+	case "triangle":
+		// recurrences with period six (second or third occurrence, or one ply off)
+		var fen string
+		if rng.IntN(2) == 0 {
+			fen = pick(rng, benchFENs)
+		} else {
+			fen = pick(rng, []string{"r6k/8/8/8/8/8/8/R6K w - - 0 1", "4k3/8/8/3q4/8/8/3Q4/4K3 w - - 0 1", ref.StartFEN, "r3k2r/8/8/8/8/8/8/R3K2R w KQkq - 0 1"})
+		}
+		g := ref.NewGame(ref.MustFEN(fen))
+		playout(rng, g, rng.IntN(4), "")
+		n := pick(rng, []int{6, 12, 12, 12, 11, 13, 18})
+		if triangle(rng, g, n) == 0 {
+			shuffle(rng, g, 8)
+		}
 		return mk(fen, g, class)
 	case "long-game":
 		// a game of many hundred plies: a position command of several kilobytes,
